@@ -137,10 +137,10 @@ class Tracker:
         self.cells[k] = list(vals)
         return k
 
-    def add(self, cells, isbool=False, intres=False):
+    def add(self, cells, isbool=False, intres=False, narrow=False):
         # intres: integer dtype whatever the configuration (arithmetic on a boolean result)
         self.seqs.append(dict(c=list(cells), pend=None, alive=True, isbool=isbool, born=self.t, grew=-1,
-                              intres=intres))
+                              intres=intres, narrow=narrow))
         return len(self.seqs) - 1
 
     def live(self):
@@ -155,6 +155,19 @@ class Tracker:
         f = tok.split(':')
         o = f[0]
         S = self.seqs
+        if o == 'cat1':
+            return 'ok'
+        if o in ('appbad', 'shrink'):
+            if o == 'appbad':
+                S[int(f[1])]['grew'] = self.t      # an attempt to grow (finding S-C15f: it detaches a view)
+            return 'ok'
+        if o == 'gett':
+            i = int(f[1])
+            ps = positions(len(S[i]['c']), dec_index(f[2]))
+            if isinstance(ps, str):
+                return ps
+            self.add([S[i]['c'][p] for p in ps], S[i]['isbool'], S[i]['intres'], narrow=True)
+            return 'ok'
         if o == 'new':
             i = self.add([])
             els = [e for e in dec_elems(f[4]) if e]
@@ -200,7 +213,7 @@ class Tracker:
             ps = positions(len(S[i]['c']), dec_index(f[2])) if o == 'get' else list(range(len(S[i]['c'])))
             if isinstance(ps, str):
                 return ps
-            self.add([S[i]['c'][p] for p in ps], S[i]['isbool'], S[i]['intres'])
+            self.add([S[i]['c'][p] for p in ps], S[i]['isbool'], S[i]['intres'], narrow=S[i]['narrow'])
             return 'ok'
         if o == 'copy':
             self.add([self.cell(self.cells[c]) for c in S[i]['c']], S[i]['isbool'], S[i]['intres'])
@@ -466,7 +479,7 @@ def exhaustive(g, init_tok, depth, level, cap=None):
     return out
 
 
-def random_history(g, rng, depth, bytes_choices):
+def random_history(g, rng, depth, bytes_choices, ext=False):
     tr = Tracker()
     toks = []
 
@@ -499,6 +512,7 @@ def random_history(g, rng, depth, bytes_choices):
     new()
     for _ in range(depth):
         live = tr.live()
+        wide = [j for j in live if not tr.seqs[j].get('narrow')]
         if not live:
             new()
             continue
@@ -509,14 +523,20 @@ def random_history(g, rng, depth, bytes_choices):
         b = s['isbool']
         room = n + 3 <= MAX_ELEMS
         if s['pend'] is not None:
-            kind = rng.choice(['appc', 'appc', 'fin', 'fin', 'app', 'get', 'copy', 'view', 'seti', 'extg'])
+            kind = rng.choice(['appc', 'appc', 'fin', 'fin', 'app', 'get', 'copy', 'view', 'seti', 'extg']
+                              + (['appbad'] if ext else []))
             if kind in ('appc', 'app', 'extg') and not room:
                 kind = 'fin'
         else:
             kinds = ['app', 'app', 'ext', 'ext', 'exts', 'get', 'get', 'get', 'view', 'copy', 'seti', 'setr',
                      'set', 'setq', 'iop', 'iop', 'op', 'cmp', 'geti', 'appc', 'extg', 'cat', 'drop', 'new', 'bad',
                      'opq', 'opq', 'bit']
+            if ext:
+                kinds = kinds + ['appbad', 'appbad', 'shrink', 'gett', 'gett', 'cat1', 'cat1']
             kind = rng.choice(kinds)
+            if s.get('narrow'):
+                # column-sliced objects (seq[idx, cols]) are only read: their rows are narrower
+                kind = rng.choice(['get', 'geti', 'drop', 'get'])
             if kind in ('app', 'ext', 'appc', 'extg') and not room:
                 kind = 'get'
         if len(live) >= MAX_LIVE and kind in ('get', 'view', 'copy', 'op', 'cmp', 'cat', 'new'):
@@ -532,7 +552,7 @@ def random_history(g, rng, depth, bytes_choices):
             els = [g.elem(rng.choice([0, 1, 2, 3]), b) for _ in range(rng.choice([0, 1, 2, 2, 3]))]
             push(f'ext:{i}:{g.bpr(rng.randrange(2))}:{0 if kind == "extg" else 1}:{enc_elems(els)}')
         elif kind == 'exts':
-            cands = [j for j in live if tr.seqs[j]['isbool'] == b and tr.seqs[j]['pend'] is None
+            cands = [j for j in wide if tr.seqs[j]['isbool'] == b and tr.seqs[j]['pend'] is None
                      and n + len(tr.seqs[j]['c']) <= MAX_ELEMS]
             if cands:
                 push(f'exts:{i}:?:{rng.choice(cands + ([i] if i in cands else []))}')
@@ -559,12 +579,12 @@ def random_history(g, rng, depth, bytes_choices):
             ps = positions(n, dec_index(ix))
             if not isinstance(ps, str) and not b:
                 want = [len(tr.cells[s['c'][p]]) for p in ps]
-                cands = [j for j in live if not tr.seqs[j]['isbool']
+                cands = [j for j in wide if not tr.seqs[j]['isbool']
                          and [len(tr.cells[c]) for c in tr.seqs[j]['c']] == want]
                 if cands and rng.random() < 0.9:
                     push(f'set:{i}:{ix}:q{rng.choice(cands)}')
                 else:
-                    j = rng.choice([j for j in live if not tr.seqs[j]['isbool']] or [i])
+                    j = rng.choice([j for j in wide if not tr.seqs[j]['isbool']] or [i])
                     wj = [len(tr.cells[c]) for c in tr.seqs[j]['c']]
                     # a refusal before anything is written only (no partial assignment)
                     if len(wj) != len(want) or sum(wj) != sum(want):
@@ -575,6 +595,20 @@ def random_history(g, rng, depth, bytes_choices):
                     push(f'op:{i}:mul,{rng.choice([-1, 2, 3])}:1:0')
                 else:
                     push(f'op:{i}:add,{rng.choice([10, 100, -5])}:1:0')
+        elif kind == 'appbad':
+            if n or s['pend'] is not None:
+                push(f'appbad:{i}' + (':b' if g.shape[0] >= 2 and rng.random() < 0.5 else ''))
+        elif kind == 'shrink':
+            push(f'shrink:{i}')
+        elif kind == 'gett' and n:
+            lo, hi = rng.choice([(0, 1)] + ([(1, g.shape[0])] if g.shape[0] >= 2 else []))
+            push(f'gett:{i}:{rand_index(n)}:{lo}:{hi}')
+        elif kind == 'cat1':
+            mine = [len(tr.cells[c]) for c in s['c']]
+            cands = [j for j in live if not tr.seqs[j].get('narrow') and tr.seqs[j]['pend'] is None
+                     and [len(tr.cells[c]) for c in tr.seqs[j]['c']] == mine]
+            if n and cands:
+                push(f'cat1:{i},{rng.choice(cands)}')
         elif kind == 'bit':
             if not b and g.kind == 'i':
                 fn = rng.choice(['or,8', 'and,1023', 'xor,5', 'shl,1', 'shr,1'])
@@ -587,8 +621,8 @@ def random_history(g, rng, depth, bytes_choices):
             if not b and n:
                 mine = [len(tr.cells[c]) for c in s['c']]
                 ok = lambda j: (not tr.seqs[j]['isbool'] and tr.seqs[j]['pend'] is None and tr.seqs[j]['c'])
-                same = [j for j in live if ok(j) and [len(tr.cells[c]) for c in tr.seqs[j]['c']] == mine]
-                ones = [j for j in live if ok(j) and [len(tr.cells[c]) for c in tr.seqs[j]['c']] == [1] * n
+                same = [j for j in wide if ok(j) and [len(tr.cells[c]) for c in tr.seqs[j]['c']] == mine]
+                ones = [j for j in wide if ok(j) and [len(tr.cells[c]) for c in tr.seqs[j]['c']] == [1] * n
                         and sum(mine) == n]
                 r = rng.random()
                 if r < 0.1:
@@ -619,7 +653,7 @@ def random_history(g, rng, depth, bytes_choices):
         elif kind == 'cmp':
             push(f'op:{i}:{rng.choice(["lt", "eq"])},{rng.randrange(0, max(2, g.counter))}:0:{0 if b else 1}')
         elif kind == 'cat':
-            cands = [j for j in live if tr.seqs[j]['isbool'] == b and tr.seqs[j]['pend'] is None]
+            cands = [j for j in wide if tr.seqs[j]['isbool'] == b and tr.seqs[j]['pend'] is None]
             js = [i] + [rng.choice(cands) for _ in range(rng.randrange(0, 3))] if cands else [i]
             if sum(len(tr.seqs[j]['c']) for j in js) <= MAX_ELEMS and s['pend'] is None:
                 push('cat:' + ';'.join(f'{j},?' for j in js))
@@ -640,6 +674,94 @@ def random_history(g, rng, depth, bytes_choices):
 
 
 # ------------------------------------------------------------------ direct predicates
+EXT_OPS = ('appbad', 'shrink', 'gett', 'cat1')
+
+
+def _check_ext(tok, f, res, prev, cur, prev_lay, cur_lay, nslots, k, fails, known):
+    """operations that are not (yet) in the Coq model: direct predicate only.  Returns True when
+    checking of this history must stop (a known finding has destroyed other objects)."""
+    o = f[0]
+    same = all(cur.get(x) == prev.get(x) for x in prev)
+    if o == 'appbad':
+        i = int(f[1])
+        if res != 'err:Value':
+            fails.append(('result', k, f'{tok}: expected err:Value, got {res}'))
+        elif not same or set(cur) != set(prev):
+            fails.append(('refusal_changes_contents', k, f'{tok}: a refused append changed some sequence'))
+        else:
+            before = {x for x, v in prev_lay.items() if v[0] == prev_lay[i][0]}
+            after = {x for x, v in cur_lay.items() if v[0] == cur_lay[i][0]}
+            if before != after:
+                fails.append(('refusal_changes_sharing', k,
+                              f'{tok}: a refused append changed which objects share the buffer of seq {i}: '
+                              f'{sorted(before)} -> {sorted(after)}'))
+        return False
+    if o == 'shrink':
+        i = int(f[1])
+        if res != 'ok':
+            fails.append(('result', k, f'{tok}: expected ok, got {res}'))
+        elif not same or set(cur) != set(prev):
+            fails.append(('shrink_changes_contents', k, f'{tok}: {prev} -> {cur}'))
+        return False
+    if o == 'gett':
+        i = int(f[1])
+        ps = positions(len(prev.get(i, [])), dec_index(f[2]))
+        exp_res = ps if isinstance(ps, str) else 'ok'
+        if not prev.get(i) and res == 'err:Index':
+            return False        # a sequence without elements may still hold the 1-D initial buffer: loud refusal
+        if res != exp_res:
+            fails.append(('result', k, f'{tok}: expected {exp_res}, got {res}'))
+        elif not same:
+            fails.append(('bystander_changed', k, f'{tok}: an existing sequence changed'))
+        elif res == 'ok' and cur.get(nslots) != [prev[i][p] for p in ps]:
+            fails.append(('own_contents', k, f'{tok}: expected {[prev[i][p] for p in ps]} got {cur.get(nslots)}'))
+        return False
+    # cat1: concatenate(axis=1), compared inside the child with the list model
+    r, _, flags = res.partition('|c=')
+    if not same or set(cur) != set(prev):
+        fails.append(('bystander_changed', k, f'{tok}: an operand changed'))
+    elif r != 'ok:good':
+        fails.append(('own_contents', k, f'{tok}: concatenate(axis=1) gave {r} (operands compact: {flags}); expected the '
+                      'column-wise concatenation of the operands\' elements'))
+    return False
+
+
+def ext_core(g, tiny):
+    """seed-independent histories for the operations outside the Coq model: append of an element with
+    a wrong trailing shape (followed by an assignment through the target), shrink_data(), tuple
+    indices seq[idx, cols] and concatenate(axis=1) on parents, slice / list views, copies"""
+    out = []
+    els = [[1, 2], [3], [4, 5, 6]]
+    pre = [f'new:{tiny}:{g.bpr()}:1:{enc_elems(els)}',
+           f'get:0:{enc_slice(1, None, None)}',      # 1 = p[1:]
+           f'get:0:{enc_slice(None, 1, None)}',      # 2 = p[:1]
+           'get:0:l,0,0,0',                          # 3 = repeats, rows add up to the buffer
+           'copy:0',                                 # 4
+           f'view:0:{tiny}',                         # 5 = ArraySequence(p)
+           f'new:{tiny}:{g.bpr(1)}:1:{enc_elems([[10, 20], [30], [40, 50, 60]])}',   # 6 = q
+           f'get:6:{enc_slice(1, None, None)}']      # 7 = q[1:]
+    for v in range(6):
+        out.append(pre + [f'appbad:{v}', f'seti:{v}:0:77', f'app:{v}:{g.bpr()}:0:8.9'])
+        out.append(pre + [f'shrink:{v}', f'app:0:{g.bpr()}:0:8.9'])
+        out.append(pre + [f'app:{v}:{g.bpr()}:0:8.9', f'shrink:{v}', 'seti:0:0:5'])
+    cols = [(0, 1)] + ([(1, g.shape[0])] if g.shape[0] >= 2 else [])
+    for v in (0, 1, 3, 4):
+        for lo, hi in cols:
+            for ix in (enc_slice(None, None, None), enc_slice(None, None, -1), 'l,1,0', 'm,1,0' + ',1' * (v in (0, 3, 4))):
+                out.append(pre + [f'gett:{v}:{ix}:{lo}:{hi}', 'geti:8:0', 'get:8:s,1,n,n', f'app:0:{g.bpr()}:0:8.9',
+                                  'seti:0:0:5'])
+    for a, b in ((0, 6), (1, 7), (4, 6), (0, 0), (2, 2), (5, 6), (1, 1), (0, 4)):
+        out.append(pre + [f'cat1:{a},{b}'])
+    out.append(pre + [f'app:0:{g.bpr()}:0:8.9', f'app:6:{g.bpr()}:0:80.90', 'cat1:0,6'])
+    # a cached build: every append checks the trailing shape, a refusal changes nothing
+    for v in (0, 1, 4):
+        for bad in ['appbad:{v}'] + (['appbad:{v}:b'] if g.shape[0] >= 2 else []):
+            out.append(pre + [f'app:{v}:{g.bpr()}:1:8.9', bad.format(v=v), f'app:{v}:{g.bpr()}:1:10', f'fin:{v}',
+                              f'seti:{v}:-1:5'])
+            out.append(pre + [bad.format(v=v), f'seti:{v}:0:77'])
+    return out
+
+
 def check_history(toks, steps, lays):
     fails, known = [], {}
     try:
@@ -670,6 +792,16 @@ def _check_history(toks, steps, lays, fails, known):
         target = None
         new_idx = None
         skip = False
+
+        if o in EXT_OPS:
+            stop = _check_ext(tok, f, res, prev, cur, prev_lay, cur_lay, nslots, k, fails, known)
+            tr.apply(tok)
+            if o == 'gett' and res == 'ok':
+                nslots += 1
+            if stop or fails:
+                return fails, known
+            prev, prev_lay = cur, cur_lay
+            continue
 
         def cellstore():
             cells = {}
